@@ -19,4 +19,4 @@ hprop.install(globals(), hprop.HistoryProperty(
     quick=(16, 60, 40), thorough=(16, 1500, 70),
     instr_bias={"kinds": [1, 1, 1, 1, 1, 0, 2, 3, 5, 6, 7, 8, 4], "vclasses": [0, 1, 2, 3, 3, 9, 9, 8], "tclasses": [0, 0, 1, 2, 7, 7, 4, 6]},
 ))
-FLOORS = {"quick": {"flag:pickup": 50, "flag:cancel": 50}, "thorough": {"flag:pickup": 500}}
+FLOORS = {"quick": {"flag:pickup": 30, "flag:cancel": 50}, "thorough": {"flag:pickup": 500}}
